@@ -122,6 +122,19 @@ def routingKey (cs : List (List UInt8)) : List UInt8 :=
   | [c] => c
   | cs => composite cs
 
+/-- SPEC (Cassandra CompositeType, the partition key of a table with several key columns): per component the length as
+    an UNSIGNED 16-bit big-endian number, the bytes, an end-of-component byte 0. Defined for components of at most
+    65535 bytes (the length is written as it is, no reduction). -/
+def Spec.frame : List (List UInt8) → List UInt8
+  | [] => []
+  | c :: cs => [UInt8.ofNat (c.length / 256), UInt8.ofNat (c.length % 256)] ++ c ++ [0] ++ Spec.frame cs
+
+/-- SPEC: one key column ↦ the value itself (any length); several ↦ the CompositeType framing -/
+def Spec.routingKey (cs : List (List UInt8)) : List UInt8 :=
+  match cs with
+  | [c] => c
+  | cs => Spec.frame cs
+
 /-- Spec decoder for CompositeType: recover the component list (fuel = input length) -/
 def decodeComposite : Nat → List UInt8 → Option (List (List UInt8))
   | _, [] => some []
